@@ -241,6 +241,49 @@ impl FsOcflStore {
         Ok(())
     }
 
+    /// Returns an error if the storage root relative object root path could resolve to a location
+    /// outside of the storage root
+    fn ensure_within_storage_root(object_id: &str, object_root: &str) -> Result<()> {
+        let escapes = object_root.is_empty()
+            || Path::new(object_root).is_absolute()
+            || object_root
+                .split('/')
+                .any(|part| part.is_empty() || part == "." || part == "..");
+
+        if escapes {
+            return Err(RocflError::IllegalState(format!(
+                "Object {} maps to the object root '{}', which is not a path inside the storage root",
+                object_id, object_root
+            )));
+        }
+
+        Ok(())
+    }
+
+    /// Returns an error if any of the directories between the storage root and the object root is
+    /// itself the root of an object
+    fn ensure_not_inside_object(&self, object_id: &str, object_root: &str) -> Result<()> {
+        let mut current = self.storage_root.clone();
+        let mut parts = object_root.split('/').peekable();
+
+        while let Some(part) = parts.next() {
+            if parts.peek().is_none() {
+                break;
+            }
+            current.push(part);
+            if current.is_dir() && is_object_root(&current)? {
+                return Err(RocflError::IllegalState(format!(
+                    "Cannot create object {} at {} because {} is the root of another object",
+                    object_id,
+                    object_root,
+                    current.to_string_lossy()
+                )));
+            }
+        }
+
+        Ok(())
+    }
+
     fn require_layout(&self) -> Result<&StorageLayout> {
         match &self.storage_layout {
             Some(layout) => Ok(layout),
@@ -358,6 +401,9 @@ impl OcflStore for FsOcflStore {
             }
         };
 
+        Self::ensure_within_storage_root(&inventory.id, &root_path)?;
+        self.ensure_not_inside_object(&inventory.id, &root_path)?;
+
         let storage_path = self.storage_root.join(root_path);
 
         if storage_path.exists() {
@@ -402,6 +448,8 @@ impl OcflStore for FsOcflStore {
                 version_str, inventory.id, existing_inventory.head
             )));
         }
+
+        Self::ensure_within_storage_root(&inventory.id, &existing_inventory.object_root)?;
 
         let object_root = self.storage_root.join(&existing_inventory.object_root);
         let destination = object_root.join(&version_str);
@@ -456,6 +504,8 @@ impl OcflStore for FsOcflStore {
             Err(e) => return Err(e),
             Ok(object_root) => object_root,
         };
+
+        Self::ensure_within_storage_root(object_id, &object_root)?;
 
         let storage_path = self.storage_root.join(&object_root);
         info!(
